@@ -2,7 +2,7 @@
 From Coq Require Import List NArith ZArith Bool.
 From Coq.Strings Require Import Byte.
 From Coq Require Import QArith.
-From Model Require Import Bytes Sx Utf8 Frame Parser FrameParser Response Conn Persist.
+From Model Require Import Bytes Sx Utf8 Frame Parser FrameParser Response Conn Persist Handshake Proxy.
 Import ListNotations.
 Open Scope N_scope.
 
@@ -123,11 +123,31 @@ Definition cmd_persist (args : list sx) : sx :=
             (map un_Q (un_L (nth_sx args 3))) (map un_bool (un_L (nth_sx args 4))) 0 0 in
   L [L (map sx_pitem items); sx_bool running].
 
+(* ---------- requests ---------- *)
+(* (30 resource host port key agent ((h v)...) (proto...) compress version) *)
+Definition cmd_request (args : list sx) : sx :=
+  B (build_request {| q_resource := un_B (nth_sx args 0); q_host := un_B (nth_sx args 1); q_port := un_N (nth_sx args 2);
+                      q_key := un_B (nth_sx args 3); q_agent := un_B (nth_sx args 4);
+                      q_custom := map (fun p => (un_B (nth_sx (un_L p) 0), un_B (nth_sx (un_L p) 1))) (un_L (nth_sx args 5));
+                      q_protocols := map un_B (un_L (nth_sx args 6)); q_compress := un_bool (nth_sx args 7);
+                      q_version := un_N (nth_sx args 8) |}).
+(* (31 host port (cred)?) *)
+Definition cmd_proxy_request (args : list sx) : sx :=
+  B (proxy_request (un_B (nth_sx args 0)) (un_N (nth_sx args 1)) (un_optB (nth_sx args 2))).
+
+(* (32 (recv steps as in scenarios)) -> 0 tunnel | 1 fail | 2 blocked *)
+Definition cmd_proxy_negotiate (args : list sx) : sx :=
+  let script := map (fun s => match un_step s with StRead _ r => r | _ => RExc end) (un_L (nth_sx args 0)) in
+  A (match negotiate script px_init with PxTunnel => 0 | PxFail => 1 | PxBlocked => 2 end).
+
 Definition run_sx (req : sx) : sx :=
   match req with
   | L (A 1 :: args) => cmd_utf8 args
   | L (A 2 :: args) => cmd_utf8_decode args
   | L (A 10 :: args) => cmd_run args
   | L (A 20 :: args) => cmd_persist args
+  | L (A 30 :: args) => cmd_request args
+  | L (A 31 :: args) => cmd_proxy_request args
+  | L (A 32 :: args) => cmd_proxy_negotiate args
   | _ => L [A 998]
   end.
